@@ -126,6 +126,7 @@ type run struct {
 	base      int            // index offset of the current phase's clients (restart uses client 9)
 	viol      []string
 	torn      bool // teardown has begun: no new client conns
+	nonce     string
 }
 
 func (r *run) violate(format string, a ...any) {
@@ -146,14 +147,41 @@ func isAlreadyStarted(err error) bool {
 	return err != nil && strings.Contains(err.Error(), "server already started")
 }
 
-func qname(j, q int) string { return fmt.Sprintf("q%d.c%d.test.", q, j) }
+// Every execution tags its names and tokens with a nonce that is unique across processes and
+// runs: on loopback sockets a port that this server (or this client) has just released can be
+// reassigned to a socket of ANOTHER process (other checks and other shards of this check run on
+// the same machine), so a request or a reply "nobody sent" may be somebody else's. Such alien
+// traffic is recognised by the missing nonce and ignored on real transports; on in-memory
+// transports it cannot exist and is a violation.
+var runSeq atomic.Uint64
 
-func parseQname(n string) (j, q int, ok bool) {
-	_, err := fmt.Sscanf(strings.ToLower(n), "q%d.c%d.test.", &q, &j)
-	return j, q, err == nil
+func newNonce() string { return fmt.Sprintf("n%dx%d", os.Getpid(), runSeq.Add(1)) }
+
+func (r *run) real() bool { return r.s.Transport == "realUDP" || r.s.Transport == "realTCP" }
+
+func (r *run) qname(j, q int) string { return fmt.Sprintf("q%d.c%d.%s.test.", q, j, r.nonce) }
+
+func (r *run) parseQname(n string) (j, q int, ok bool) {
+	f := strings.Split(strings.ToLower(n), ".")
+	if len(f) != 5 || f[2] != r.nonce || f[3] != "test" || f[4] != "" {
+		return 0, 0, false
+	}
+	_, e1 := fmt.Sscanf(f[0], "q%d", &q)
+	_, e2 := fmt.Sscanf(f[1], "c%d", &j)
+	return j, q, e1 == nil && e2 == nil
 }
 
-func token(j, q int) string { return fmt.Sprintf("reply-for-c%d-q%d", j, q) }
+func (r *run) token(j, q int) string { return fmt.Sprintf("reply-%s-c%d-q%d", r.nonce, j, q) }
+
+// replyToken returns the token a reply carries ("" when it has none).
+func replyToken(m *dns.Msg) string {
+	if m != nil && len(m.Answer) == 1 {
+		if t, ok := m.Answer[0].(*dns.TXT); ok && len(t.Txt) == 1 {
+			return t.Txt[0]
+		}
+	}
+	return ""
+}
 
 // spec returns the handler behaviour for request (j,q).
 func (r *run) spec(j, q int) Req {
@@ -164,20 +192,24 @@ func (r *run) spec(j, q int) Req {
 }
 
 func (r *run) handler(w dns.ResponseWriter, req *dns.Msg) {
-	if len(req.Question) != 1 {
-		r.violate("handler got a request with %d questions", len(req.Question))
-		return
+	var j, q int
+	ok := len(req.Question) == 1
+	if ok {
+		j, q, ok = r.parseQname(req.Question[0].Name)
 	}
-	j, q, ok := parseQname(req.Question[0].Name)
 	if !ok {
-		r.violate("handler got a request nobody sent: %q", req.Question[0].Name)
+		if r.real() { // traffic of another process that reached a reassigned port
+			r.log.Add("alien.request")
+			return
+		}
+		r.violate("handler got a request nobody sent: %v", req.Question)
 		return
 	}
 	r.log.Pointf("handler.enter(%d,%d)", j, q)
 	sp := r.spec(j, q)
 	reply := new(dns.Msg)
 	reply.SetReply(req)
-	reply.Answer = []dns.RR{&dns.TXT{Hdr: dns.RR_Header{Name: req.Question[0].Name, Rrtype: dns.TypeTXT, Class: dns.ClassINET, Ttl: 1}, Txt: []string{token(j, q)}}}
+	reply.Answer = []dns.RR{&dns.TXT{Hdr: dns.RR_Header{Name: req.Question[0].Name, Rrtype: dns.TypeTXT, Class: dns.ClassINET, Ttl: 1}, Txt: []string{r.token(j, q)}}}
 	write := func() {
 		if err := w.WriteMsg(reply); err != nil {
 			r.log.Addf("handler.writeerr(%d,%d)", j, q)
@@ -399,7 +431,7 @@ func (r *run) client(j int, c Client) {
 	co := &dns.Conn{Conn: conn}
 	mk := func(q int) *dns.Msg {
 		m := new(dns.Msg)
-		m.SetQuestion(qname(j, q), dns.TypeTXT)
+		m.SetQuestion(r.qname(j, q), dns.TypeTXT)
 		m.Id = uint16(j*16 + q)
 		return m
 	}
@@ -413,13 +445,21 @@ func (r *run) client(j int, c Client) {
 		for i := 0; err != nil && r.s.Transport == "realUDP" && strings.Contains(err.Error(), "connection refused") && i < 8; i++ {
 			rep, err = co.ReadMsg()
 		}
+		// replies of another process's server (see newNonce): skip datagrams, give up on a stream
+		for i := 0; err == nil && r.real() && !strings.Contains(replyToken(rep), r.nonce) && i < 8; i++ {
+			r.log.Add("alien.reply")
+			if r.s.Transport == "realTCP" {
+				err = errors.New("connected to a foreign server")
+				break
+			}
+			rep, err = co.ReadMsg()
+		}
 		if err != nil {
 			r.log.Addf("client(%d).recverr(%d)", j, want)
 			return false
 		}
 		q := int(rep.Id) % 16
-		if int(rep.Id)/16 != j || q < 1 || q > len(c.Reqs) || (want != 0 && q != want) ||
-			len(rep.Answer) != 1 || rep.Answer[0].(*dns.TXT).Txt[0] != token(j, q) {
+		if int(rep.Id)/16 != j || q < 1 || q > len(c.Reqs) || (want != 0 && q != want) || replyToken(rep) != r.token(j, q) {
 			r.violate("I2: client %d (waiting for request %d) got a reply that is not its own: %v", j, want, rep)
 			return false
 		}
@@ -428,19 +468,22 @@ func (r *run) client(j int, c Client) {
 	}
 	ok := true
 	if c.Pipeline {
+		sent := 0
 		for qi := range c.Reqs {
 			if err := co.WriteMsg(mk(qi + 1)); err != nil {
+				// the server is gone; the replies to what was sent before must still be read
 				r.log.Addf("client(%d).senderr(%d)", j, qi+1)
 				ok = false
 				break
 			}
+			sent++
 			r.log.Pointf("client(%d).sent(%d)", j, qi+1)
 		}
-		if ok && c.Close != "afterSend" {
-			for qi := range c.Reqs {
+		if c.Close != "afterSend" {
+			for i := 0; i < sent; i++ {
 				want := 0 // datagram replies may arrive in any order; a stream keeps the order
 				if r.s.stream() {
-					want = qi + 1
+					want = i + 1
 				}
 				if !recv(want) {
 					ok = false
@@ -584,7 +627,7 @@ func checkScenario(s Scenario) error {
 		pbt.Note(key, false, "skipped-after-wedge")
 		return nil
 	}
-	r := &run{s: s, log: memnet.NewLog(), addr2idx: map[string]string{}, results: map[string]error{}, resultSet: map[string]bool{}, phase: 1}
+	r := &run{s: s, nonce: newNonce(), log: memnet.NewLog(), addr2idx: map[string]string{}, results: map[string]error{}, resultSet: map[string]bool{}, phase: 1}
 	r.log.SetPlan(s.Waits)
 	err := r.execute()
 	classes := r.classes()
@@ -1070,17 +1113,20 @@ func (r *run) restart() error {
 	}
 	co := &dns.Conn{Conn: conn}
 	m := new(dns.Msg)
-	m.SetQuestion(qname(j, 1), dns.TypeTXT)
+	m.SetQuestion(r.qname(j, 1), dns.TypeTXT)
 	m.Id = j*16 + 1
 	var rep *dns.Msg
 	if !within(watchdog(), func() {
 		if err = co.WriteMsg(m); err == nil {
 			rep, err = co.ReadMsg()
+			for i := 0; err == nil && r.s.Transport == "realUDP" && !strings.Contains(replyToken(rep), r.nonce) && i < 8; i++ {
+				rep, err = co.ReadMsg() // a datagram of another process (see newNonce)
+			}
 		}
 	}) {
 		return r.hang("an exchange with the restarted server")
 	}
-	if err != nil || rep.Id != m.Id || len(rep.Answer) != 1 || rep.Answer[0].(*dns.TXT).Txt[0] != token(j, 1) {
+	if err != nil || rep.Id != m.Id || replyToken(rep) != r.token(j, 1) {
 		return r.fail("restart: exchange with the restarted server failed: %v %v", err, rep)
 	}
 	var sdErr error
